@@ -10,12 +10,12 @@ PROPS = {
     "C03": _crdt("C03", 2500, 10000),
     "C04": _crdt("C04", 3000, 16000),
     "C05": _crdt("C05", 3500, 8000),
-    "C16": _crdt("C16", 3000, 20000),
+    "C16": _crdt("C16", 6000, 20000),
     "C06": {"jobs": [{"pkg": "auth", "run": "^TestC06$", "checks_quick": 3000, "checks_thorough": 16000, "shards_thorough": 16, "wal": True}]},
     "C07": {"jobs": [{"pkg": "auth", "run": "^TestC07$", "checks_quick": 20000, "checks_thorough": 150000, "shards_thorough": 16}]},
     "C08": {"jobs": [{"pkg": "codec", "run": "^TestC08", "checks_quick": 8000, "checks_thorough": 60000, "shards_thorough": 8, "xproc": True}]},
     "C09": {"jobs": [{"pkg": "load", "run": "^TestC09$", "checks_quick": 1500, "checks_thorough": 10000, "shards_thorough": 16}]},
-    "C10": {"jobs": [{"pkg": "load", "run": "^TestC10$", "checks_quick": 1500, "checks_thorough": 10000, "shards_thorough": 16}]},
+    "C10": {"jobs": [{"pkg": "load", "run": "^TestC10$", "checks_quick": 2500, "checks_thorough": 10000, "shards_thorough": 16}]},
     "C11": {"jobs": [{"pkg": "load", "run": "^TestC11$", "checks_quick": 1500, "checks_thorough": 10000, "shards_thorough": 16}], "timeout_quick": 1200, "timeout_thorough": 5400},
     "C12": {"jobs": [{"pkg": "hostile", "run": "^(TestC12|FuzzC12Decode)$", "checks_quick": 6000, "checks_thorough": 30000, "shards_thorough": 12, "wal": True},
                      {"pkg": "hostile", "fuzz": "FuzzC12Decode", "tiers": ["thorough"], "shards_thorough": 1, "fuzztime_thorough": "420s"}]},
